@@ -340,6 +340,8 @@ class Executor:
                     v = v.f[p[1]]
                 elif isinstance(v, Closure):
                     v = v.f[p[1]]
+                elif isinstance(v, (ObjRef, MemRef)) and p[1] == 0:
+                    pass  # the pointer field of a transparent pointer wrapper (NonNull, Box, Unique): the pointer itself
                 elif isinstance(v, Enum):
                     raise Unsupported("field of enum without downcast")
                 elif isinstance(v, tuple) and v[0] == "variant":
@@ -794,10 +796,12 @@ class Executor:
             return ret(args[0])
         if meth == "as_ref" and "NonNull" in base:
             v = args[0]
-            if isinstance(v, LocalRef):
+            if isinstance(v, (LocalRef, ObjRef)):
                 v = self._project(stk, v, [("deref",)])
             return ret(v)
         if meth == "new_unchecked" and "NonNull" in base:
+            return ret(args[0])
+        if meth == "from_raw" and base.startswith("Box::"):
             return ret(args[0])
         if base in ("core::mem::size_of", "core::mem::align_of", "core::mem::needs_drop") or meth in ("size_of", "align_of") and "mem" in base:
             m = re.search(r"::<(.*)>$", func)
